@@ -363,6 +363,34 @@ func vfCredShapes() []vfCredShape {
 	}
 	extca("extca-rolecert-inside-automation", vfRoleCIDR, vfInsideAddr, true)
 	extca("extca-rolecert-outside-automation", vfRoleCIDR, vfOutsideAddr, false)
+	// a connection opened while the certificate was valid and kept alive past its
+	// expiry: TLS verified the chain at the handshake, the request comes later
+	add(vfCredShape{"rolecert-expired-on-kept-alive-connection-inside", func(w *vfWorld, q *vfReq) vfTruth {
+		// a one-second certificate: verified now (the handshake), presented two seconds later
+		st := w.state
+		if st.Signer == nil { // sealed world: any role certificate will do, nothing is served
+			q.TLS = w.vfTLSFor(w.vfIssueRoleCert(vfAutoUser, vfKeys.userEC.Public(), vfRoleCIDR))
+			q.Remote = vfInsideAddr
+			return vfTruth{Kind: "ipcert"}
+		}
+		caCert, err := x509.ParseCertificate(st.selfRoleCaCertDer)
+		vfMust(err)
+		_, nb, _ := net.ParseCIDR(vfRoleCIDR)
+		der, err := certgen.GenIPRestrictedX509Cert(vfAutoUser, vfKeys.userEC.Public(), caCert, st.Signer, []net.IPNet{*nb}, time.Second, nil, nil)
+		vfMust(err)
+		l, err := x509.ParseCertificate(der)
+		vfMust(err)
+		q.TLS = w.vfTLSFor(l)
+		vclock.Advance(2 * time.Second)
+		q.Remote = vfInsideAddr
+		return vfTruth{Kind: "ipcert"}
+	}})
+	add(vfCredShape{"kmcert-expired-on-kept-alive-connection", func(w *vfWorld, q *vfReq) vfTruth {
+		l := w.vfIssueUserCert(target, vfKeys.userEC.Public(), time.Second)
+		q.TLS = w.vfTLSFor(l)
+		vclock.Advance(2 * time.Second)
+		return vfTruth{Kind: "kmcert"}
+	}})
 	cert("rolecert-outside-named-alice", func(w *vfWorld) (*x509.Certificate, string, vfTruth) {
 		l := w.vfIssueRoleCert(target, vfKeys.userEC.Public(), vfRoleCIDR)
 		return l, vfOutsideAddr, vfTruth{Kind: "ipcert"}
